@@ -15,6 +15,10 @@ SRC = {
     0xFD00: ".orig xFD00\nstart add r0 r0 #1\nmid add r0 r0 #1\nadd r0 r0 #1\nlast halt\n",
     0x0000: ".orig x0\nstart add r0 r0 #1\nmid add r0 r0 #1\nadd r0 r0 #1\nlast halt\n",
     # an image that runs past xFE00, with preset breakpoints (`.break`) on statements OUTSIDE user space
+    # origins at and beyond xFE00: the user range [origin, xFE00) is EMPTY, every target is refused
+    0xFE00: ".orig xFE00\nstart add r0 r0 #1\nmid add r0 r0 #1\nadd r0 r0 #1\nlast halt\n",
+    0xFE10: ".orig xFE10\nstart add r0 r0 #1\nmid add r0 r0 #1\nadd r0 r0 #1\nlast halt\n",
+    0xFFF0: ".orig xFFF0\nstart add r0 r0 #1\nmid add r0 r0 #1\nadd r0 r0 #1\nlast halt\n",
     0xFDFC: ".orig xFDFC\nstart add r0 r0 #1\nmid add r0 r0 #1\nadd r0 r0 #1\nlast halt\n.break\ndev add r0 r0 #1\n.break\nhalt\n",
 }
 
@@ -34,6 +38,7 @@ def gen(tier, seed):
             tg = BOUNDARY
         else:
             tg = targets(tier, rnd) if orig == 0x3000 or tier == "quick" else BOUNDARY + list(range(0, 65536, 257))
+        tg = list(tg) + [(orig + k) & 0xFFFF for k in (-2, -1, 0, 1, 3, 4, 5)] + ([0x4000, 0x0100] if orig >= 0xFE00 else [])
         for a in tg:
             # three spellings of the same target: absolute, label +- offset, ^offset (when the offset fits 16 bits)
             spell = [("addr", a)]
